@@ -200,7 +200,10 @@ CLAIMED = {
        'which the writes of the call have happened, whatever else happened before, between and after: after a 2xx every recipient of the message '
        'as the edge received it belongs to a message the storage took in this call, known to the machine with exactly the recipients of one of '
        'the envelopes the policies produced; no_recipient_in_two_envelopes) and acknowledged_recipient_never_lost (C02 o C16 o C01: from then on the '
-       'recipient is counted in exactly one of delivered / failed for good (and bounced) / outstanding with a next step). Tied to the code by the real SmtpEdge (client socket on a socketpair), '
+       'recipient is counted in exactly one of delivered / failed for good (and bounced) / outstanding with a next step); '
+       'proxy_hop_ack_means_next_hop_accepted (C02 o C11: edge -> ProxyQueue -> SMTP relay -> next hop: for every next-hop script a 2xx of either '
+       'edge implies connection, handshake, and non-error replies to MAIL, every RCPT, DATA and the message data; tied by 200 / 3000 of C11\'s '
+       'downstream scripts behind real StaticSmtpRelay / StaticLmtpRelay + ProxyQueue + edge). Tied to the code by the real SmtpEdge (client socket on a socketpair), '
        'WsgiEdge (WSGI call and pywsgi on loopback), Queue + RecipientDomainSplit over a store whose k-th write fails or is held, and ProxyQueue '
        'over scripted relay results: all outcome vectors for n <= 3, storage contents read at the instant the reply arrives, reply absent while a '
        'write is held; and 400 (thorough 6000) random enqueue calls through a real edge into a real Queue with chains of the built-in policies, '
